@@ -1,5 +1,6 @@
 (* C16 — allocated pids and references are unique.  Only property theorems here. *)
 From EDP Require Import Base.Bytes Gen.PidConsts Gen.LockScope Dist.PidAlloc Dist.PidAllocFacts Conc.Interleave Conc.AllocConc.
+From EDP Require Codec.Decode Node.Node Node.CreationFacts.
 From EDP Require Conc.RefConc.
 
 (* Any number k <= MAX_PROCESSES_PER_NODE * 2^32 (= 2^52 on the pinned tree) of consecutive allocations,
@@ -28,6 +29,16 @@ Proof. exact allocs_creation. Qed.
    on to the allocator (re-read from node.rs by the translator); the model's node_init does the same *)
 Theorem C16_started_node_passes_its_creation_on : node_start_sets_allocator_creation = 1.
 Proof. reflexivity. Qed.
+
+(* on the node model: no operation and no inbound frame changes the creation the allocator stamps, so a process spawned
+   anywhere along a run of a node started with creation c has an identifier of creation c *)
+Theorem C16_node_creation_never_changes : forall cfg ops st,
+  creation (Node.n_alloc (Node.run cfg st ops)) = creation (Node.n_alloc st).
+Proof. exact CreationFacts.run_creation. Qed.
+
+Theorem C16_spawned_pid_carries_the_node_creation : forall cfg name c conn ops st' pid,
+  Node.step cfg (Node.run cfg (Node.node_init name c conn) ops) Node.OSpawn = (st', Node.UPid pid) -> Term.pcreation pid = c.
+Proof. exact CreationFacts.spawned_pid_carries_the_creation. Qed.
 
 Theorem C16_refs_unique : forall k c, c < two32 -> 3 * N.of_nat k <= two32 -> NoDup (refs k c).
 Proof. exact refs_nodup. Qed.
